@@ -268,6 +268,34 @@ class WriterK1(object):
         self.transitions = 0
         self.order_error = P.cls('pydiffx.errors', 'DiffXSectionOrderError')
 
+    def _abstract_args(self, name):
+        """Fully abstract, caller-supplied arguments (any type) for the call under analysis."""
+        m = self.cls.find_method(name)
+        params = m.params()[1:]
+        defaults = m.param_defaults()
+        a, kw = [], {}
+        content = None
+        # one caller-controlled argument at a time is fully abstract (any type);
+        # the others are well-typed abstract values (content) or left at their
+        # defaults (options).  The variant is a top-level choice of the path.
+        variants = [None] + [p for p in params]
+        which = variants[self._I.choose(len(variants), 'abstract-arg')]
+        for p in params:
+            if p not in defaults and content is None:
+                if which == p or which is None:
+                    u = Unk('arg:%s' % p, taint=['ARG'], src=('param', p))
+                else:
+                    a0, kw0, u = self._args(name, None, 0)
+                    if isinstance(u, Unk):
+                        u.taint = frozenset(['ARG'])
+                content = u
+                if isinstance(u, Unk):
+                    u.k1_content = True
+                a.append(u)
+            elif which == p or which is None and False:
+                kw[p] = Unk('arg:%s' % p, taint=['ARG'], src=('param', p))
+        return a, kw, content
+
     def _args(self, name, own, idx):
         content = None
         if name == 'write_preamble':
@@ -288,7 +316,11 @@ class WriterK1(object):
     def run_sequence(self, seq):
         """seq: list of (method, declares).  The prefix runs deterministically
         (first alternative at every fork); every path of the last call is explored."""
-        I = Interp(self.P)
+        I = Interp(self.P, unknown_iters=getattr(self, 'unknown_iters', (0, 1, 2)))
+        if getattr(self, 'summarise_utils', False):
+            from sa import summary
+            I.stubs.update(summary.stubs_for(self.P, summary.text_utils(self.P)))
+        self._I = I
         oracle = Oracle(None)
         problems = []
         state = {}
@@ -302,6 +334,18 @@ class WriterK1(object):
             try:
                 obj = I.instantiate(self.cls, [fp], {'encoding': lmain}, None)
                 oracle.container(0, lmain)
+                state['prev_id'] = 'diffx'
+                state['fp'] = fp
+
+                def is_effect(kind, data, obj=obj, fp=fp):
+                    if kind.startswith('stream-'):
+                        return data.get('stream') is fp
+                    if kind == 'attr-store':
+                        return data.get('obj') is obj
+                    if kind in ('mutate', 'item-store', 'item-del'):
+                        return _reachable_from(obj, data.get('obj'))
+                    return False
+                I.effect_filter = is_effect
                 last = None
                 for i, (name, declares) in enumerate(seq):
                     own = Label('own#%d:%s' % (i, name)) if declares else None
@@ -311,25 +355,73 @@ class WriterK1(object):
                         raise AnalysisError('DiffXWriter.%s not found (anchor vanished)' % name)
                     if i == len(seq) - 1:
                         I.deterministic = False
+                        if getattr(self, 'last_abstract', False):
+                            a, kw, content = self._abstract_args(name)
                         state['mark'] = len(I.events)
                         state['own'] = own
                         state['name'] = name
+                        clevel = max(oracle.open) if oracle.open else 0
+                        if name == 'new_change':
+                            state['next_id'] = '.change'
+                        elif name == 'new_file':
+                            state['next_id'] = '..file'
+                        else:
+                            state['next_id'] = '.' * (clevel + 1) + name.split('_', 1)[1]
+                        state['prev_at_last'] = state['prev_id']
+                        I.dirty = None
                     I.frames = []
                     I.call_function(m, [obj] + a, kw, None, self_cls=self.cls)
                     if name in ('new_change', 'new_file'):
                         oracle.container(1 if name == 'new_change' else 2, own)
+                        state['prev_id'] = '.change' if name == 'new_change' else '..file'
+                    else:
+                        clevel = max(oracle.open) if oracle.open else 0
+                        state['prev_id'] = '.' * (clevel + 1) + name.split('_', 1)[1]
             finally:
                 I.deterministic = False
             state['obj'] = obj
             return obj
-        result = {'accepted': False, 'problems': problems, 'sig': None}
+        result = {'accepted': False, 'problems': problems, 'sig': None, 'raises': [], 'escapes': [], 'ops': [], 'pairs': [],
+                  'next_id': None, 'prev_id': None}
         npaths = 0
         for path in I.explore(thunk):
             npaths += 1
-            if npaths > 512:
+            if npaths > getattr(self, "max_paths", 512):
                 raise AnalysisError('writer K1: too many paths for %r' % (seq,))
+            result['next_id'] = state.get('next_id')
+            result['prev_id'] = state.get('prev_at_last')
+            if state.get('mark') is not None:
+                for ev in path.events[state['mark']:]:
+                    if ev.kind.startswith('stream-') and ev.data.get('stream') is state.get('fp'):
+                        op = (ev.kind, ev.loc, ev.fn)
+                        if op not in result['ops']:
+                            result['ops'].append(op)
+                        if ev.kind == 'stream-write' and path.outcome == 'return':
+                            from sa import sinks
+                            for k_, v_, node_ in sinks.header_pairs(ev.data.get('data')):
+                                ok, why = sinks.value_sanitised(v_)
+                                rec = (str(concrete(k_)) if is_concrete(k_) else '?', ok, why, sinks.origin(v_), ev.loc)
+                                if rec not in result['pairs']:
+                                    result['pairs'].append(rec)
+                    if ev.kind == 'mayraise' and not ev.data['caught']:
+                        from sa.interp import exc_name
+                        from sa.values import taint_of
+                        t = set()
+                        for o in ev.data.get('operands', ()):
+                            t |= taint_of(o)
+                        rec = (exc_name(ev.data['exc']), ev.loc, ev.fn, ev.data['why'], _norm(ev.node),
+                               (ev.dirty.kind, ev.dirty.loc, _norm(ev.dirty.node)) if ev.dirty is not None else None,
+                               sorted(t))
+                        if rec not in result['escapes']:
+                            result['escapes'].append(rec)
             if path.outcome == 'raise':
                 e = path.value
+                if state.get('mark') is not None:
+                    dirty = I.dirty
+                    rec = (e.exc.exc_name, _loc(e, path), e.explicit, e.note,
+                           (dirty.kind, dirty.loc, _norm(dirty.node)) if dirty is not None else None)
+                    if rec not in result['raises']:
+                        result['raises'].append(rec)
                 if 'mark' not in state or state.get('mark') is None:
                     raise AnalysisError('writer K1: prefix of %r raises %s' % (seq, e.exc.exc_name))
                 if e.exc.exc is self.order_error or e.exc.exc_name == 'DiffXSectionOrderError':
@@ -403,13 +495,43 @@ def _lab(x):
     return getattr(x, 'text', x)
 
 
+def _norm(node):
+    from sa.model import norm
+    return norm(node)[:100] if node is not None else '?'
+
+
+def _loc(e, path):
+    st = getattr(e, 'origin_stack', None) or ()
+    fi = st[-1] if st else None
+    if fi is not None and e.site is not None:
+        return '%s:%d %s: %s' % (fi.module.relpath, getattr(e.site, 'lineno', 0), fi.short, _norm(e.site))
+    return _norm(e.site)
+
+
+def _reachable_from(obj, target, depth=0):
+    if target is None or depth > 4:
+        return False
+    vals = obj.attrs.values() if isinstance(obj, AObj) else (obj.items.values() if isinstance(obj, ADict) else
+                                                             (obj.items if isinstance(obj, AList) else ()))
+    for v in vals:
+        if v is target:
+            return True
+        if isinstance(v, (ADict, AList)) and _reachable_from(v, target, depth + 1):
+            return True
+    return False
+
+
 # -- level-parallel BFS ---------------------------------------------------------------
 _K = None
 
 
 def _run_one(seq):
     res = _K.run_sequence(seq)
-    return {'problems': res['problems'], 'sig': res.get('sig'), 'accepted': res.get('accepted', True)}
+    out = {'problems': res['problems'], 'sig': res.get('sig'), 'accepted': res.get('accepted', True)}
+    for k in ('raises', 'escapes', 'ops', 'pairs', 'next_id', 'prev_id'):
+        if k in res:
+            out[k] = res[k]
+    return out
 
 
 def explore_parallel(K, initial, successors, key_of):
@@ -432,6 +554,8 @@ def explore_parallel(K, initial, successors, key_of):
         K.transitions += len(level)
         nxt = []
         for seq, res in zip(level, results):
+            if getattr(K, 'collect', None) is not None:
+                K.collect(seq, res)
             if not res['accepted']:
                 continue
             if res['problems']:
